@@ -278,6 +278,7 @@ pub const CODE_CORRUPTION_HEADER_SIZE_EXCEEDS_MAX: &str = "corruption-header-siz
 pub const CODE_CORRUPTION_ENTRY_SIZE_EXCEEDS_MAX: &str = "corruption-entry-size-exceeds-max";
 pub const CODE_CORRUPTION_TRUE_UP_EXCEEDS_HEADER_MAX: &str =
     "corruption-true-up-exceeds-header-max";
+pub const CODE_CORRUPTION_TRUE_UP_PADDING_NOT_ZERO: &str = "corruption-true-up-padding-not-zero";
 pub const CODE_CORRUPTION_TRUNCATION_NO_SECOND_HEADER: &str =
     "corruption-truncation-no-second-header";
 pub const CODE_CORRUPTION_LOG_POISONED: &str = "corruption-log-poisoned";
@@ -579,6 +580,12 @@ fn corruption_entry_size_exceeds_max(size: u64, offset: u64) -> SError {
 
 fn corruption_true_up_exceeds_header_max(offset: u64, trued_up: u64) -> SError {
     error(CODE_CORRUPTION_TRUE_UP_EXCEEDS_HEADER_MAX)
+        .with_atom_field(FIELD_OFFSET, offset)
+        .with_atom_field(FIELD_TRUE_UP, trued_up)
+}
+
+fn corruption_true_up_padding_not_zero(offset: u64, trued_up: u64) -> SError {
+    error(CODE_CORRUPTION_TRUE_UP_PADDING_NOT_ZERO)
         .with_atom_field(FIELD_OFFSET, offset)
         .with_atom_field(FIELD_TRUE_UP, trued_up)
 }
